@@ -20,7 +20,7 @@ LEVEL = "model_checking"
 
 
 def validate(ctx, trace, tag):
-    r = vlib.tlc("RoundTripTrace.tla", "RoundTripTrace.cfg", workers=1, timeout=3000, env={"TRACE": trace},
+    r = vlib.tlc("RoundTripTrace.tla", "RoundTripTrace.cfg", workers=1, timeout=12000, env={"TRACE": trace},
                  metadir=os.path.join(ctx.out, "tv-" + tag), heap="6g")
     if r.error or r.violated or r.printed("TOOLERR"):
         open(os.path.join(ctx.out, "tv-%s.log" % tag), "w").write(r.out)
@@ -46,7 +46,7 @@ def run(ctx):
     vlib.mc(ctx, "MCRepo.tla", "MCRepoTyped.cfg" if not q else "MCRepoSeqQuick.cfg", workers=8, timeout=3000)
     work = os.path.join(ctx.out, "tmp")
     trace = os.path.join(ctx.out, "trace.ndjson")
-    args = ["roundtrip", "--seed", ctx.seed, "--trees", 12 if q else 150, "--configs", 3 if q else 8, "--work", work, "--out", trace]
+    args = ["roundtrip", "--seed", ctx.seed, "--trees", 12 if q else 400, "--configs", 3 if q else 8, "--work", work, "--out", trace]
     rc, out = vlib.vh(args, timeout=9000)
     if rc != 0:
         raise vlib.ToolError("roundtrip driver failed: " + out[-2000:])
